@@ -280,32 +280,112 @@ func runC34(c *Ctx) {
 		c.Ob("refusals", "extractHostname#ip-refused-before-split", call.Pos(), okIP, "an IP host is refused before any label logic")
 		c.Ob("refusals", "extractHostname#two-dots-required-before-split", call.Pos(), okLabels, "a host with fewer than three labels is refused before the split")
 	}
-	// label returned is parts[0] of the same split whose parts[1] was matched
+	// label returned is parts[0] of the same split whose parts[1] was matched. Decided at the
+	// sites that give the result its value (assignments to a named result, or explicit
+	// returns), from the path fact about the root-domain test: where it held the value is
+	// the first part of that very split (Split/SplitN [0]/[1], or Cut before/after), where
+	// it did not the value is the whole (lower-cased) host.
 	okLabel := false
-	ast.Inspect(eh.Body, func(n ast.Node) bool {
-		ifs, ok := n.(*ast.IfStmt)
-		if !ok || ifs.Else == nil {
-			return true
+	{
+		var tests []*ast.CallExpr
+		for _, call := range eh.CallsTo(false, "slices.Contains") {
+			if len(call.Args) == 2 && strings.HasSuffix(eh.enclosing(call).Prov(call.Args[0]), ".RootDomains") {
+				tests = append(tests, call)
+			}
 		}
-		call, ok := ifs.Cond.(*ast.CallExpr)
-		if !ok || len(call.Args) != 2 {
-			return true
-		}
-		pa := eh.Prov(call.Args[1])
-		for _, st := range ifs.Body.List {
-			if as, ok := st.(*ast.AssignStmt); ok && len(as.Rhs) == 1 {
-				pb := eh.Prov(as.Rhs[0])
-				// parts[1] / parts[0] of one Split, or after / before of one Cut
-				if x, ok := strings.CutSuffix(pa, "[const:1]"); ok && strings.Contains(x, "strings.Split") && pb == x+"[const:0]" {
-					okLabel = true
+		stripLower := func(g *Fn, e ast.Expr) ast.Expr {
+			for {
+				call, ok := ast.Unparen(e).(*ast.CallExpr)
+				if !ok || !g.IsCall(call, "strings.ToLower") || len(call.Args) != 1 {
+					return ast.Unparen(e)
 				}
-				if x, ok := strings.CutSuffix(pa, "strings.Cut()#1"); ok && pb == x+"strings.Cut()#0" && len(eh.CallsTo(false, "strings.Cut")) == 1 {
-					okLabel = true
+				e = call.Args[0]
+			}
+		}
+		var wholeHost func(g *Fn, e ast.Expr, depth int) bool
+		wholeHost = func(g *Fn, e ast.Expr, depth int) bool {
+			e = stripLower(g, e)
+			if depth > 5 {
+				return false
+			}
+			if g.Prov(e) == "param#0" {
+				return true
+			}
+			v := g.varOf(e)
+			if v == nil {
+				return false
+			}
+			defs := g.defsOf(v)
+			if len(defs) == 0 && eh.paramIndex(v) == 0 {
+				return true
+			}
+			for _, d := range defs {
+				if d.multi || d.rhs == nil {
+					return false
+				}
+				// host = strings.ToLower(host): a self-reference is the same value, lowered
+				if sv := g.varOf(stripLower(g, d.rhs)); sv == v {
+					continue
+				}
+				if !wholeHost(g.enclosing(d.rhs), d.rhs, depth+1) {
+					return false
+				}
+			}
+			return eh.paramIndex(v) == 0 || len(defs) > 0
+		}
+		paired := func(pa, pb string) bool {
+			if x, ok := strings.CutSuffix(pa, "[const:1]"); ok && strings.Contains(x, "strings.Split") && pb == x+"[const:0]" {
+				return true
+			}
+			if x, ok := strings.CutSuffix(pa, "strings.Cut()#1"); ok && pb == x+"strings.Cut()#0" && len(eh.CallsTo(false, "strings.Cut")) == 1 {
+				return true
+			}
+			return false
+		}
+		type site struct {
+			at  ast.Node
+			val ast.Expr
+		}
+		var sites []site
+		var resObj types.Object
+		if eh.Type.Results != nil && len(eh.Type.Results.List) > 0 && len(eh.Type.Results.List[0].Names) > 0 {
+			resObj = eh.Info.Defs[eh.Type.Results.List[0].Names[0]]
+		}
+		for _, nd := range shallowNodes(eh.Body) {
+			switch x := nd.(type) {
+			case *ast.AssignStmt:
+				for i, l := range x.Lhs {
+					if resObj != nil && eh.ObjOf(l) == resObj && len(x.Lhs) == len(x.Rhs) {
+						sites = append(sites, site{x, x.Rhs[i]})
+					}
+				}
+			case *ast.ReturnStmt:
+				if len(x.Results) == 2 && isNilIdent(eh.Info, x.Results[1]) {
+					sites = append(sites, site{x, x.Results[0]})
 				}
 			}
 		}
-		return true
-	})
+		nHit, nMiss, bad := 0, 0, false
+		for _, st := range sites {
+			g := eh.enclosing(st.at)
+			fs := eh.FactsAt(st.at)
+			for _, k := range tests {
+				switch {
+				case fs.Has(func(fa *Fact) bool { return fa.Kind == FTrue && fa.Call == k }):
+					nHit++
+					if !paired(eh.enclosing(k).Prov(k.Args[1]), g.Prov(stripLower(g, st.val))) {
+						bad = true
+					}
+				case fs.Has(func(fa *Fact) bool { return fa.Kind == FFalse && fa.Call == k }):
+					nMiss++
+					if !wholeHost(g, st.val, 0) {
+						bad = true
+					}
+				}
+			}
+		}
+		okLabel = len(tests) == 1 && nHit >= 1 && nMiss >= 1 && !bad
+	}
 	c.Ob("refusals", "extractHostname#label-of-matched-split", eh.Decl.Pos(), okLabel, "for a root-domain host the name is the first part of the split whose remainder matched a root domain")
 }
 
